@@ -18,6 +18,11 @@ type Lexer struct {
 	// memo of looksLikeAccount: input[aheadStart:aheadEnd] was scanned and its
 	// last colon is at aheadLastColon (-1: none)
 	aheadStart, aheadEnd, aheadLastColon int
+
+	// memo of looksLikeVirtualAccount: the scan that started at virtualStart
+	// stopped at virtualStop with this result; every start in between stops there too
+	virtualStart, virtualStop int
+	virtualResult             bool
 }
 
 // headerState tracks the position inside a transaction header line, where the
@@ -733,16 +738,25 @@ func (l *Lexer) looksLikeDate() bool {
 }
 
 func (l *Lexer) looksLikeVirtualAccount() bool {
-	for i := l.pos + 1; i < len(l.input); i++ {
+	start := l.pos + 1
+	if l.virtualStop > 0 && start > l.virtualStart && start <= l.virtualStop {
+		// a line of many opening brackets asks again and again for the same stretch
+		return l.virtualResult
+	}
+	result, stop := false, len(l.input)
+	for i := start; i < len(l.input); i++ {
 		ch := l.input[i]
 		if ch == ')' || ch == '\n' {
-			return false
+			stop = i
+			break
 		}
 		if ch == ':' {
-			return true
+			result, stop = true, i
+			break
 		}
 	}
-	return false
+	l.virtualStart, l.virtualStop, l.virtualResult = start, stop, result
+	return result
 }
 
 var directiveSet = map[string]struct{}{
